@@ -581,6 +581,24 @@ theorem skipped_rebuild_breaks_single_chain :
   · decide
   · decide
 
+/-! ### P — lock discipline (the logical part of the concurrency clause; data-race freedom itself is not a theorem) -/
+
+/-- `pool_lock_discipline` over the fact list regenerated from the AST of chain/account_pool.go: every exported method
+    of `accountPool` that reaches `ap.managers` (directly or through unexported methods) executes
+    `ap.changes.Lock(); defer ap.changes.Unlock()` before its first such access, and no unexported method takes the
+    lock (sync.Mutex is not re-entrant; the unexported methods run with the lock held). So all accesses to the
+    per-address managers are serialised by one mutex. -/
+theorem pool_lock_discipline : ∀ x ∈ Gen.poolLockSites,
+    (x.2.1 = true → x.2.2.2 ≠ 0 → x.2.2.1 ≠ 0 ∧ x.2.2.1 < x.2.2.2) ∧ (x.2.1 = false → x.2.2.1 = 0) := by
+  decide
+
+/-- the fact list really contains the methods the property is about -/
+theorem pool_lock_sites_cover : ∀ n ∈ ["AddAccountBlockTransaction", "ForceAddAccountBlockTransaction",
+    "InsertMomentum", "DeleteMomentum", "GetUncommittedAccountBlocksByAddress", "GetAllUncommittedAccountBlocks",
+    "GetFrontierAccountStore", "GetAccountStore", "GetPatch", "addAccountBlockTransaction", "rebuild"],
+    n ∈ Gen.poolLockSites.map (·.1) := by
+  decide
+
 example : ∃ s, Reachable [] s ∧ s.manager.pooled.length = 2 :=
   ⟨step (step ⟨[], none⟩ (.add { height := 1, hash := [1], prevHash := zeroHash } false))
       (.add { height := 2, hash := [2], prevHash := [1] } false),
